@@ -862,3 +862,69 @@ def clash_schema(seed, idx, pool=None, package=None):
 
 def clash_schemas(seed, count):
     return [clash_schema(seed, i) for i in range(count)]
+
+
+# ----------------------------------------------------------------------------- systematic pair clashes (C07)
+
+PAIR_POOL = ["X", "X_entry", "X_0", "X_0_entry", "X_1", "entry", "X_entry_0"]
+
+
+def pair_clash_schemas(sparse=False):
+    """Deterministic schemas in which every ordered pair of names from PAIR_POOL (a name, its `_entry` form, its
+    mangled forms `_0`/`_1` and their combinations) meets in every position where the generated code derives class
+    names from entity names: sibling groups (both orders), nested groups, group + entry member, message-level field +
+    group, group + sibling data member, group + contained data member, and message names against group names.
+    Dense form: one schema per position holding all pairs (names also meet across messages).  Sparse form: one
+    single-message schema per (position, pair) -- sbeppc's mangling state is per schema, and in a dense schema most
+    names are already mangled for another reason, which hides what a fresh schema shows."""
+    from . import refmodel
+    out = []
+
+    def finish(pkg, msgs):
+        s = Schema(pkg, id=7, version=1, types=[std_header(), std_dimension(), std_vardata()], messages=msgs,
+                   description="pair clash schema", name=pkg)
+        s.light = sparse
+        refmodel.fix_offsets(s)
+        refmodel.fit_ids_to_header(s)
+        out.append(s)
+
+    def build(pkg, make):
+        nid = _ids()
+        msgs = []
+        k = 0
+        for a in PAIR_POOL:
+            for b in PAIR_POOL:
+                lv = make(a, b, nid)
+                if lv is None:
+                    continue
+                fs, gs, ds = lv
+                if sparse:
+                    finish("%s_%d" % (pkg, k), [Message("M", 1, fs, gs, ds)])
+                    k += 1
+                    nid = _ids()
+                else:
+                    msgs.append(Message("M%d" % len(msgs), len(msgs) + 1, fs, gs, ds))
+        if not sparse:
+            finish(pkg, msgs)
+
+    def grp(n, nid, fields=None, groups=(), data=()):
+        return Group(n, nid(), fields if fields is not None else [Field("f", nid(), "uint16")], list(groups), list(data))
+
+    pre = "ps" if sparse else "pc"
+    build(pre + "_sib", lambda a, b, nid: None if a == b else ([Field("k", nid(), "uint8")], [grp(a, nid), grp(b, nid)], []))
+    build(pre + "_nest", lambda a, b, nid: ([], [grp(a, nid, groups=[grp(b, nid)])], []))
+    build(pre + "_member", lambda a, b, nid: ([], [grp(a, nid, fields=[Field(b, nid(), "uint32")])], []))
+    build(pre + "_field", lambda a, b, nid: None if a == b else ([Field(b, nid(), "int8")], [grp(a, nid)], []))
+    build(pre + "_data", lambda a, b, nid: None if a == b else ([], [grp(a, nid)], [Data(b, nid(), "varDataEncoding")]))
+    build(pre + "_indata", lambda a, b, nid: ([], [grp(a, nid, data=[Data(b, nid(), "varDataEncoding")])], []))
+    if sparse:
+        return out
+    # message names from the pool against group / field / data names
+    nid = _ids()
+    msgs = []
+    for i, a in enumerate(PAIR_POOL):
+        others = [x for x in PAIR_POOL if x != a]
+        msgs.append(Message(a, i + 1, [Field(others[0], nid(), "uint8")], [grp(x, nid) for x in others[1:4]] + [grp(a + "_g", nid, groups=[grp(a, nid)])],
+                            [Data(others[4], nid(), "varDataEncoding")]))
+    finish("pc_msg", msgs)
+    return out
